@@ -77,6 +77,9 @@ def run_entry(profile, features, entry, repo=None):
         records.extend(stamp_entry(I))
     elif entry == "ppconst":
         records.extend(ppconst_entry(I))
+    elif entry == "ppstep":
+        from . import ppstep
+        records.extend(ppstep.ppstep_entry(I))
     elif entry == "ctor":
         records.extend(ctor_entry(I))
     elif entry == "access":
